@@ -405,74 +405,86 @@ theorem coord_push (s s' : Sys) (seq : Nat) (h : Inv s) (hp : s.pc = .push seq) 
   all_goals inv_simp
 
 
+/-- the spawn check, for either continuation (`nx = top`: back to the loop top; `nx = source`: a fused
+    source call goes on to its end handling) -/
+theorem coord_spawnChk_aux (s s' : Sys) (h : Inv s) (hp : s.pc = .spawnChk) (nx : CPc)
+    (hnx : nx = .top ∨ nx = .source)
+    (hs : (if s.queue.length > 0 ∧ s.active = s.ws.length ∧ s.ws.length < s.cfg.maxWorkers then
+        some { s with ws := s.ws ++ [.chkShutdown], nextDispatch := s.nextDispatch + 1, pc := nx }
+      else some { s with nextDispatch := s.nextDispatch + 1, pc := nx }) = some s') :
+    Inv s' := by
+  rcases hnx with rfl | rfl
+  all_goals (
+    cases_sys
+    split at hs <;> simp at hs <;> subst hs
+    · rename_i hcond
+      simp only at hcond
+      cases_inv
+      have hcq := cntOf_spawn queue ws chan ooo
+      have hmf : (∃ w ∈ ws ++ [WPc.chkShutdown], midFail w = true) ↔ (∃ w ∈ ws, midFail w = true) := by
+        constructor
+        · rintro ⟨w, hw, hm⟩
+          rcases List.mem_append.mp hw with hw | hw
+          · exact ⟨w, hw, hm⟩
+          · simp at hw; subst hw; cases hm
+        · rintro ⟨w, hw, hm⟩
+          exact ⟨w, List.mem_append_left _ hw, hm⟩
+      constructor
+      case wsBound => simp only [List.length_append, List.length_singleton]; omega
+      case cntLe => intro q; simp only [cnt]; rw [hcq]; exact h7 q
+      case cntRange =>
+        intro q hq0; simp only [cnt] at hq0; rw [hcq] at hq0
+        have := h8 q hq0; simp only [disp, dispOf, reduceCtorEq, ↓reduceIte]; exact this
+      case cons =>
+        intro q hq1 hq2
+        simp only [disp, dispOf, reduceCtorEq, ↓reduceIte] at hq1 hq2
+        have := h9 q hq1 hq2
+        simp only [cnt, Failing, FailingOf]; rw [hcq, hmf]
+        simpa using this
+      case okSent =>
+        intro q hq
+        rcases hq with hq | hq | hq
+        · rcases List.mem_append.mp hq with hq | hq
+          · exact h11 q (Or.inl hq)
+          · simp at hq
+        · exact h11 q (Or.inr (Or.inl hq))
+        · exact h11 q (Or.inr (Or.inr hq))
+      case noExit =>
+        intro hsh w hw
+        rcases List.mem_append.mp hw with hw | hw
+        · exact h19 hsh w hw
+        · simp at hw; subst hw; simp
+      case closedNoWait =>
+        intro hcl
+        have := h20.mp hcl
+        cases this
+      case qAlive =>
+        intro _ _
+        left; exact ⟨.chkShutdown, by simp, by simp⟩
+      case emptyActive => intro hc; simp at hc
+      all_goals (clear hcq hmf h7 h8 h9)
+      all_goals inv_simp
+    · rename_i hcond
+      simp only at hcond
+      cases_inv
+      constructor
+      case qAlive =>
+        intro hsh hq
+        rcases h23 hsh hq with hh | ⟨_, hh⟩
+        · exact Or.inl hh
+        · exfalso
+          apply hcond
+          subst hh
+          refine ⟨?_, ?_, ?_⟩
+          · exact List.length_pos_iff.mpr hq
+          · simp [h24 rfl]
+          · exact h1
+      all_goals inv_simp)
+
 theorem coord_spawnChk (s s' : Sys) (h : Inv s) (hp : s.pc = .spawnChk) (hs : coordStep s = some s') :
     Inv s' := by
   simp only [coordStep, hp] at hs
-  cases_sys
-  split at hs <;> simp at hs <;> subst hs
-  · rename_i hcond
-    simp only at hcond
-    cases_inv
-    have hcq := cntOf_spawn queue ws chan ooo
-    have hmf : (∃ w ∈ ws ++ [WPc.chkShutdown], midFail w = true) ↔ (∃ w ∈ ws, midFail w = true) := by
-      constructor
-      · rintro ⟨w, hw, hm⟩
-        rcases List.mem_append.mp hw with hw | hw
-        · exact ⟨w, hw, hm⟩
-        · simp at hw; subst hw; cases hm
-      · rintro ⟨w, hw, hm⟩
-        exact ⟨w, List.mem_append_left _ hw, hm⟩
-    constructor
-    case wsBound => simp only [List.length_append, List.length_singleton]; omega
-    case cntLe => intro q; simp only [cnt]; rw [hcq]; exact h7 q
-    case cntRange =>
-      intro q hq0; simp only [cnt] at hq0; rw [hcq] at hq0
-      have := h8 q hq0; simp only [disp, dispOf, reduceCtorEq, ↓reduceIte]; exact this
-    case cons =>
-      intro q hq1 hq2
-      simp only [disp, dispOf, reduceCtorEq, ↓reduceIte] at hq1 hq2
-      have := h9 q hq1 hq2
-      simp only [cnt, Failing, FailingOf]; rw [hcq, hmf]
-      simpa using this
-    case okSent =>
-      intro q hq
-      rcases hq with hq | hq | hq
-      · rcases List.mem_append.mp hq with hq | hq
-        · exact h11 q (Or.inl hq)
-        · simp at hq
-      · exact h11 q (Or.inr (Or.inl hq))
-      · exact h11 q (Or.inr (Or.inr hq))
-    case noExit =>
-      intro hsh w hw
-      rcases List.mem_append.mp hw with hw | hw
-      · exact h19 hsh w hw
-      · simp at hw; subst hw; simp
-    case closedNoWait =>
-      intro hcl
-      have := h20.mp hcl
-      cases this
-    case qAlive =>
-      intro _ _
-      left; exact ⟨.chkShutdown, by simp, by simp⟩
-    case emptyActive => intro hc; simp at hc
-    all_goals (clear hcq hmf h7 h8 h9)
-    all_goals inv_simp
-  · rename_i hcond
-    simp only at hcond
-    cases_inv
-    constructor
-    case qAlive =>
-      intro hsh hq
-      rcases h23 hsh hq with hh | ⟨_, hh⟩
-      · exact Or.inl hh
-      · exfalso
-        apply hcond
-        subst hh
-        refine ⟨?_, ?_, ?_⟩
-        · exact List.length_pos_iff.mpr hq
-        · simp [h24 rfl]
-        · exact h1
-    all_goals inv_simp
+  exact coord_spawnChk_aux s s' h hp _ (by split <;> simp) hs
 
 theorem caller_call (s s' : Sys) (h : Inv s) (hs : callerStep s false = some s') : Inv s' := by
   simp only [callerStep] at hs
